@@ -5,9 +5,8 @@ _COMMON = [
 SPEC = dict(
     harness=['h_str.c'],
     # second configuration: counts/capacities near the top of the index type against a ledger allocator (harness/h_huge.c)
-    configs=lambda tier: [dict(name='default'), dict(name='huge', harness=['h_huge.c'], hflags=['-DVF_HUGE=6'])],
+    configs=lambda tier: [dict(name='default'), dict(name='huge', harness=['h_huge.c'], hflags=['-DVF_HUGE=6'], nworkers=2)],
     parallel_configs=2,
-    workers={'quick': 16, 'thorough': 32},
     level='exploration',
     memcheck_cases={'thorough': 1600},
     rule='seeded histories of 30-70 operations on two string objects: all append forms (catc/catn/cats/cat and their non-terminating _ twins, catf and '
